@@ -37,6 +37,8 @@ func init() {
 				Edits: []Edit{{File: "driver/network/acquirepriv.go", Old: "if _, ok := d.PrivilegeLevels[target]; !ok {", New: "if _, ok := d.PrivilegeLevels[target]; !ok || len(d.privGraph[target]) == 0 {"}}},
 			{ID: "C04-get-prompt-raw", Desc: "GetPrompt returns everything it read instead of the prompt match", Rule: "C04/get-prompt",
 				Edits: []Edit{{File: "channel/getprompt.go", Old: "cr <- &result{b: c.PromptPattern.Find(b), err: err}", New: "cr <- &result{b: b, err: err}"}}},
+			{ID: "C04-sendconfig-fast-path", Desc: "SendConfig acquires the configuration level itself for a single line and calls the generic driver", Rule: "C04/send-delegates",
+				Edits: []Edit{{File: "driver/network/sendconfig.go", Old: "\tconfigLines := strings.Split(config, \"\\n\")\n\n", New: "\tconfigLines := strings.Split(config, \"\\n\")\n\n\tif len(configLines) == 1 {\n\t\terr := d.AcquirePriv(defaultConfigurationPrivLevel)\n\t\tif err != nil {\n\t\t\treturn nil, err\n\t\t}\n\n\t\treturn d.Driver.SendCommand(config, opts...)\n\t}\n\n"}}},
 			{ID: "C04-fromfile-skips-acquire", Desc: "SendCommandsFromFile skips the implicit acquire", Rule: "C04/acquire-before-send",
 				Edits: []Edit{{File: "driver/network/sendcommands.go", Old: "\tf string,\n\topts ...util.Option,\n) (*response.MultiResponse, error) {\n\tif d.CurrentPriv != d.DefaultDesiredPriv {", New: "\tf string,\n\topts ...util.Option,\n) (*response.MultiResponse, error) {\n\tif d.CurrentPriv != d.DefaultDesiredPriv && f == \"\" {"}}},
 			{ID: "C04-unknown-only-empty", Desc: "unknown-target refusal only for the empty name", Rule: "C04/refuse-unknown-first",
@@ -82,6 +84,8 @@ func runC04(c *Ctx, r *Report) {
 	r.Rule("C04/step-table", "processAcquirePriv: current-level selection, no-action / transition bookkeeping, next hop and direction on every path", 9)
 	r.Rule("C04/step-wiring", "escalate/deescalate transmit their own level's command; AcquirePriv dispatches each action to its step and returns step errors", 6)
 	r.Rule("C04/bounded", "the AcquirePriv loop is bounded by a counter compared with the number of levels and re-reads the prompt each iteration", 2)
+	r.Rule("C04/send-delegates", "the network driver's remaining Send* methods reach the device only through the five analysed ones (no private acquire / generic send / channel write)", 2)
+	checkNetworkSendDelegates(c, r, "C04/send-delegates")
 	r.Rule("C04/acquire-before-send", "commands run after acquiring the default desired level (when the cached level differs); configs / interactive after acquiring the requested, else configuration / default, level", 5)
 
 	checkLevelDetection(c, r)
